@@ -101,7 +101,7 @@ CLAIMED['C07'] = dict(
     text='Kernel-checked: delivery_justified (over any chunk history every delivery comes from a frame decision on a contiguous window of the '
          'received bytes) + rtu/tcp/ascii/binary_frame_valid (what such a decision guarantees: matching CRC-16 / consistent MBAP length / hex + '
          'matching LRC), corrupted_frame_rejected (codeword-level: any error pattern with non-zero CRC register fails the check, CRC field '
-         'included) with corollaries single_bit, odd_weight (1 and 3 bits), burst16, double_bit (frames <= 4095 bytes), lrc_single_byte.',
+         'included) with corollaries single_bit, odd_weight (1 and 3 bits), burst16, double_bit (frames <= 4095 bytes), lrc_single_byte. Frames whose checksum is all zeros / all ones are found by search and damaged like the others; the checksum field inverted / zeroed / set to ones is a corruption kind.',
     design='6/C07', technique='Lean 4 invariant proof over chunk histories + CRC linearity/residue algebra + differential correspondence',
     note='Detection theorems are about the check the receiver applies at a frame position; a corrupted stream may still contain another valid window (the oracle in the harness accepts exactly those).')
 
@@ -130,7 +130,7 @@ CLAIMED['C16'] = dict(
          'managers each run = the model\'s); distinct_ids_counterexample / C16_dict_counterexample are kept as theorems about the '
          'mutant Old.* (allocation before 5cae7f5: fixed finding tid-wrap-overwrite). The model is compared event by event with the real ModbusClientProtocol / ModbusSerClientProtocol / '
          'ModbusUdpClientProtocol driven over a fake transport with real Deferreds, and the decidable Spec predicates are '
-         'evaluated by the driver on the real trace each run.',
+         'evaluated by the driver on the real trace each run. Cancellation of outstanding deferreds by the application is probed directly on the real protocol objects (not a model operation).',
     design='6/C16', technique='Lean 4 invariant proof over operation histories of a re-entrant state machine + differential correspondence',
     note='Modelled not verified: Twisted runs callbacks synchronously (Deferred semantics, checked by the trace comparison); the '
          'framer is abstracted to "a complete reply frame with transaction id t arrives" (framing itself is C03/C06/C07); the '
@@ -191,7 +191,7 @@ CLAIMED['C10'] = dict(
          'broadcast_no_response, broadcast_unit_accepted, other_requests_leave_tables, unit0_ordinary_without_broadcast, single_mode_any_unit. All seven real front-ends '
          'are run each run on hosted sets incl. 0/255 with per-unit dumps after every request; final tables are checked against the '
          'per-unit projection of the history executed by the register-file spec. Histories include units removed from the context at run time '
-         '(del context[u]) and units ATTACHED at run time to a server that was built — by the front-end\'s real constructor — around a context without units; the model carries the unit list a handler read before its blocking read (Conn.snap), as the sync TCP and asyncio handlers do. Noisy lines: the head of a frame for one hosted unit followed by a complete request to another - no unit changes unless a complete valid frame addresses it. Kernel-checked in addition: handleEvents_untouched / connStep_untouched (whatever bytes arrive, the tables of a hosted unit change only through a DELIVERED request that addresses it or is a broadcast). Run-time `context[v] = slave` steps; two sync TCP connections really interleaved between checkFrame and populateResult (one handler thread parked at the decoder).',
+         '(del context[u]) and units ATTACHED at run time to a server that was built — by the front-end\'s real constructor — around a context without units; the model carries the unit list a handler read before its blocking read (Conn.snap), as the sync TCP and asyncio handlers do. Noisy lines: the head of a frame for one hosted unit followed by a complete request to another - no unit changes unless a complete valid frame addresses it. Kernel-checked in addition: handleEvents_untouched / connStep_untouched (whatever bytes arrive, the tables of a hosted unit change only through a DELIVERED request that addresses it or is a broadcast). Run-time `context[v] = slave` steps; two sync TCP connections really interleaved between checkFrame and populateResult (one handler thread parked at the decoder). registered_unit_accepted / registered_unit_served (a unit registered at run time is in the list the front-ends hand their framers and its requests are executed on the registered tables).',
     design='6/C10', technique='Lean 4 proof over the server front-end model (unit routing) + differential correspondence + projection oracle',
     note=SERVER_NOTE)
 CLAIMED['C12'] = dict(
@@ -248,7 +248,7 @@ CLAIMED['C15'] = dict(
          'threads on the real ModbusTcpClient (in-memory socket/select/time, scripted connection refusals, lost replies, broadcasts and '
          'retrying clients whose back-off sleep is a yield point; both locks instrumented at birth and from outside; a thread that stops '
          'reaching yield points for 3 s is reported as a deadlock) run under a deterministic cooperative scheduler for all schedules of 2..4 threads x 1..3 '
-         'transactions (DFS, capped) plus random schedules, each run checked against the property directly and against the model.',
+         'transactions (DFS, capped) plus random schedules, each run checked against the property directly and against the model. Replies that arrive incomplete (first 8..10 bytes) are run against the property only (the schedule model has replies that never arrive, not cut ones); socket close() is not a yield point, so a pre-emption between a lock release and a later close() is not exhibited.',
     design='6/C15', technique='Lean 4 invariant proof over schedules of a lock-parametric thread model + systematic schedule enumeration of the real code',
     note='Partial only in the sense of the design: pre-emption is exhibited at the yield points (every transport operation, every poll, '
          'lock acquire/release; the model allows it between any two operations); pre-emption inside a Python bytecode sequence and '
